@@ -140,7 +140,7 @@ Live == \A s \in GoodIds :
               ~> (s \in PRange(S.written) \/ RoundOf(S, s) < S.head))
 
 \* --- non-vacuity witnesses (properties that must be violated) ---------------------------------
-ReachPoolAdvance == [][~(S.pc = "offer" /\ S'.fc = S.fc + 1)]_vars
+ReachPoolAdvance == [][~(last'.o.op = "P" /\ S'.fc = S.fc + 1)]_vars
 ReachSlotReuse == [][~(\E i \in DOMAIN S.pool : i \in DOMAIN S'.pool /\ S.pool[i].num >= 0 /\ S'.pool[i].num = S.pool[i].num + K)]_vars
 ReachFar == [][last'.res # "far"]_vars
 ReachExpired == [][last'.res # "expired"]_vars
@@ -150,8 +150,8 @@ ReachPeerLimit == [][~(last'.res = "dup" /\ \E i \in DOMAIN S.pool : \E j \in 1.
 ReachMissingTx == [][~(S.pc = "mid" /\ Cur(S) \notin S.txs)]_vars
 ReachWritten3 == Len(S.written) < 3
 ReachSecondPeerHandover == [][~(S.pc = "mid" /\ S.pk = 2)]_vars
-ReachAdvanceBadCert == [][~(S.pc = "offer" /\ S'.fc = S.fc + 1 /\ KindOf(S, Cur(S)) = "bad")]_vars
-ReachFork == [][~(S.pc = "offer" /\ S'.fc = S.fc + 1 /\ Closes(S, Cur(S)) = {1})]_vars
+ReachAdvanceBadCert == [][~(last'.o.op = "P" /\ S'.fc = S.fc + 1 /\ S'.pc = "idle")]_vars
+ReachFork == [][~(last'.o.op = "P" /\ S'.fc = S.fc + 1 /\ S'.closed = {1})]_vars
 ReachSizeErr == [][last'.res # "sizeerr"]_vars
 ReachRingFull == [][last'.res # "full"]_vars
 ReachDropped == [][last'.res # "dropped"]_vars
@@ -163,5 +163,12 @@ Compact(T) == [pool |-> PoolSeq(T), fi |-> T.fi, fc |-> T.fc, head |-> T.head, c
                dirty |-> T.dirty, pc |-> T.pc, pi |-> T.pi, pidx |-> T.pidx, pn |-> T.pn, pj |-> T.pj,
                pk |-> T.pk, pkn |-> T.pkn]
 
-Emit == PrintT("EDGE " \o ToJson([from |-> Compact(S), o |-> last'.o, ok |-> last'.res, to |-> Compact(S')]))
+\* the first edges of a behaviour also carry the universe (the driver builds the real snapshots from it)
+RECURSIVE SetToSeq(_)
+SetToSeq(X) == IF X = {} THEN <<>>
+               ELSE LET m == CHOOSE a \in X : \A b \in X : a <= b IN <<m>> \o SetToSeq(X \ {m})
+UJson == [i \in DOMAIN Universe |-> [round |-> Universe[i].round, kind |-> Universe[i].kind,
+                                      closes |-> SetToSeq(Universe[i].closes)]]
+Emit == PrintT("EDGE " \o ToJson([from |-> Compact(S), o |-> last'.o, ok |-> last'.res, to |-> Compact(S'),
+                                  u |-> IF S = InitState(Universe, H0) THEN UJson ELSE <<>>, k |-> K]))
 =============================================================================
